@@ -3,7 +3,7 @@
 set -e
 W=$1
 cd $W
-git diff -- . ':!evidence' ':!lean/Plotink/Gen' ':!replays' > /tmp/merge_patch.diff
+git diff -- . ':!evidence' ':!lean/Plotink/Gen' ':!replays' ':!seeded' > /tmp/merge_patch.diff
 git -C /verif apply --3way /tmp/merge_patch.diff && echo "patch applied: $(grep -c '^diff' /tmp/merge_patch.diff) files"
-git ls-files --others --exclude-standard | grep -v -e '^replays/' -e '^evidence/' -e '__pycache__' -e '^lean/Plotink/Gen/' | while read f; do
+git ls-files --others --exclude-standard | grep -v -e '^seeded/' -e '^replays/' -e '^evidence/' -e '__pycache__' -e '^lean/Plotink/Gen/' | while read f; do
   mkdir -p /verif/$(dirname "$f"); cp -a "$f" "/verif/$f"; echo "  new: $f"; done
